@@ -224,6 +224,18 @@ fn odd_structures(g: &Grammar) -> Vec<(String, String)> {
     }
     // duplicate names, empty lists, groups with odd structure, no MOD_PAR but REF_MEMORY_SEGMENT
     out.push(("duplicate names across kinds".into(), file_text(g, "m", &[e("MEASUREMENT", "X", "c1"), e("CHARACTERISTIC", "X", "c1"), e("MEASUREMENT", "X", "c2")])));
+    // duplicate names within every repeatable named kind of the module (same and different content, adjacent and not)
+    let module = g.get_elem("MODULE").expect("MODULE");
+    for r in &module.refs {
+        let Some(el) = g.get_elem(&r.tag) else { continue };
+        if !r.repeat || !r.in_version(5) || !el.is_named() || r.tag == "IF_DATA" {
+            continue;
+        }
+        let t = r.tag.as_str();
+        out.push((format!("duplicate {t}: identical twice"), file_text(g, "m", &[e(t, "DUP", "c1"), e(t, "DUP", "c1")])));
+        out.push((format!("duplicate {t}: different content"), file_text(g, "m", &[e(t, "DUP", "c1"), e(t, "DUP", "c2")])));
+        out.push((format!("duplicate {t}: three, one other between"), file_text(g, "m", &[e(t, "DUP", "c1"), e(t, "OTHER", "c1"), e(t, "DUP", "c2"), e(t, "DUP", "c1")])));
+    }
     out.push(("REF_MEMORY_SEGMENT without MOD_PAR".into(), file_text(g, "m", &[e("MEASUREMENT", "X", "c1").kid(ks("REF_MEMORY_SEGMENT", &[("name", "S")]))])));
     out.push(("empty lists".into(), file_text(g, "m", &[e("FUNCTION", "F", "c1").kid(kl("SUB_FUNCTION", &[])).kid(kl("IN_MEASUREMENT", &[])), e("GROUP", "G", "c1").kid(kl("SUB_GROUP", &[]))])));
     out.push(("group cycles".into(), file_text(g, "m", &[e("GROUP", "A", "c1").kid(kl("SUB_GROUP", &["B", "A"])), e("GROUP", "B", "c1").kid(kl("SUB_GROUP", &["A", "A", "NOPE"])).kid(k("ROOT"))])));
@@ -348,7 +360,7 @@ pub fn run(tier: &str) -> Run {
     run.require("resolving target: no report", 50);
     run.require("missing target: named", 50);
     run.require("totality: report returned", 500);
-    run.rule = "one fully consistent module with every position check() covers populated (its report must be empty) x for each of the 48 covered positions every alternative target of its namespace class (missing, another kind of the same namespace, the special constants, THIS.<component> valid / invalid, a name from another namespace); thorough: all pairs of corruptions. Oracle: the set of target names of CrossReferenceErrors equals the set of names made missing. Totality: 8 characteristic types x 0..7 AXIS_DESCR x 5 axis kinds x 3 record layouts for CHARACTERISTIC and TYPEDEF_CHARACTERISTIC, odd structures (duplicates, cycles, empty lists, missing MOD_PAR), every corpus document and the C10 modules: check() returns and leaves the model untouched.".into();
+    run.rule = "one fully consistent module with every position check() covers populated (its report must be empty) x for each of the 48 covered positions every alternative target of its namespace class (missing, another kind of the same namespace, the special constants, THIS.<component> valid / invalid, a name from another namespace); thorough: all pairs of corruptions. Oracle: the set of target names of CrossReferenceErrors equals the set of names made missing. Totality: 8 characteristic types x 0..7 AXIS_DESCR x 5 axis kinds x 3 record layouts for CHARACTERISTIC and TYPEDEF_CHARACTERISTIC, odd structures (duplicate names within every repeatable named kind of the module, cycles, empty lists, missing MOD_PAR), every corpus document and the C10 modules: check() returns and leaves the model untouched.".into();
     run
 }
 
